@@ -391,6 +391,8 @@ def expect(state, m):
                 ok(unchanged[:i] + pstate + unchanged[i + 1:])
                 if len(pstate) > 1:
                     ex.classes.append('multi-story-replace')
+                if v in pids:
+                    ex.classes.append('same-id-replace')
                 ex.classes.append(f'replace-{"first" if i == 0 else "kth"}')
             else:
                 not_found(SNF)
@@ -577,6 +579,8 @@ def expect(state, m):
                 ok(with_items(iids[:i] + pids + iids[i + 1:]))
                 if len(pids) > 1:
                     ex.classes.append('multi-item-replace')
+                if tv in pids:
+                    ex.classes.append('same-id-replace')
                 ex.classes.append(f'replace-{"first" if i == 0 else "kth"}')
             else:
                 not_found(INF)
